@@ -16,8 +16,8 @@ def U(rule, msg, fn=None):
     return Unrecognised(rule, msg, fn.path if fn else None, fn.line if fn else None)
 
 
-def rule_construct(ctx, F, label="lib"):
-    rule = "C14.who-may-construct"
+def rule_construct(ctx, F, label="lib", prefix="C14"):
+    rule = prefix + ".who-may-construct"
     ctx.rule(rule, "CardPair(..) tuple construction occurs only inside CardPair::new")
     new = F.fn(CARD_PAIR + "::new")
     n = 0
@@ -51,8 +51,8 @@ def rule_construct(ctx, F, label="lib"):
     ctx.floor("CardPair constructions", n, 2)
 
 
-def rule_new(ctx, F):
-    rule = "C14.canonical-order"
+def rule_new(ctx, F, prefix="C14"):
+    rule = prefix + ".canonical-order"
     ctx.rule(rule, "CardPair::new returns (smaller, larger) under the derived Card order on every path")
     fn = F.fn(CARD_PAIR + "::new")
     ctx.analysed([fn])
